@@ -18,6 +18,7 @@ import os, re, shutil
 import vlib
 
 ASIS = {
+    "Stream_siblingkill.cfg": "NoAbort",   # the acceptor giving up one stream cancels the listener's shared socket (seeded c03-close-connection-cancels-shared-socket)
     "Stream_forwardwedge.cfg": "temporal",   # Complete/AllDelivered: a forwarder waiting for the node's context is wedged by a congested link that is cut (seeded c03-forward-waits-on-node-context)
     "Stream_acceptdeadline.cfg": "NoReadErrorWhileUp",   # a read deadline left armed by the accept path (seeded c03-accept-read-deadline-never-cleared)
     "Stream_noticefatal.cfg": "NoSpontaneousClose",   # a transient notice must not close the writing side (seeded change c03-any-unreach-cancels-stream)
